@@ -25,6 +25,8 @@ def dfact(n):
     return r
 
 
+TECHNIQUE += '; threshold-directed sampling of every comparison against a constant (both sides next to the threshold); ternaries in the special-value domain'
+
 def run(chk):
     repo = Repo(chk.repo)
     ms = repo.by_path('TidalPy/utilities/math/special_x.pyx')
